@@ -63,19 +63,30 @@ end
 
 /-- inserting a new id makes exactly that vector and metadata retrievable, changing nothing else -/
 theorem spec_insert_new (s : Spec) (id : ItemId) (vec : VecRef) (md : Meta) (level : Nat)
-    (h : s.get id = none) :
+    (h : s.get id = none) (hfit : mdFits md = true) :
     (s.insert id vec md level).2 = .ok ∧
     (∃ l, (s.insert id vec md level).1.get id = some ⟨vec, md, l⟩) ∧
     (∀ j, j ≠ id → (s.insert id vec md level).1.get j = s.get j) := by
   unfold Spec.insert
-  simp only [h]
+  simp only [h, hfit, Bool.true_eq_false, if_false]
   refine ⟨by first | rfl | trivial, ⟨(if s.ids.isEmpty then 0 else level), by simp [Spec.set]⟩, ?_⟩
   intro j hj; simp [Spec.set, hj]
 
 /-- inserting an existing id fails with "already exists" and changes nothing -/
 theorem spec_insert_existing (s : Spec) (id : ItemId) (vec : VecRef) (md : Meta) (level : Nat)
-    (it : SItem) (h : s.get id = some it) : s.insert id vec md level = (s, .exists) := by
-  unfold Spec.insert; simp [h]
+    (it : SItem) (h : s.get id = some it) (hfit : mdFits md = true) : s.insert id vec md level = (s, .exists) := by
+  unfold Spec.insert; simp [h, hfit]
+
+/-- metadata that the snapshot format cannot hold is refused — on insert, and on update when the
+*merged* metadata would not fit — and nothing changes (the item that was to be updated is kept) -/
+theorem spec_insert_too_large (s : Spec) (id : ItemId) (vec : VecRef) (md : Meta) (level : Nat)
+    (hfit : mdFits md = false) : s.insert id vec md level = (s, .mdTooLarge) := by
+  unfold Spec.insert; simp [hfit]
+
+theorem spec_update_too_large (s : Spec) (id : ItemId) (vec : VecRef) (md : Meta) (it : SItem)
+    (h : s.get id = some it) (hfit : mdFits (mergeMd md it.md) = false) :
+    s.update id vec md = (s, .mdTooLarge) := by
+  unfold Spec.update; simp [h, hfit]
 
 /-- removing / updating an absent id fails with "not found" and changes nothing -/
 theorem spec_delete_absent (s : Spec) (id : ItemId) (h : s.get id = none) : s.delete id = (s, .notFound) := by
@@ -96,14 +107,14 @@ theorem spec_delete_present (s : Spec) (id : ItemId) (it : SItem) (h : s.get id 
 
 /-- updating replaces the vector, merges the metadata and keeps the level, changing nothing else -/
 theorem spec_update_present (s : Spec) (id : ItemId) (vec : VecRef) (md : Meta) (it : SItem)
-    (h : s.get id = some it) :
+    (h : s.get id = some it) (hfit : mdFits (mergeMd md it.md) = true) :
     (s.update id vec md).2 = .ok ∧
     (∃ l, (s.update id vec md).1.get id = some ⟨vec, mergeMd md it.md, l⟩) ∧
     (∀ j, j ≠ id → (s.update id vec md).1.get j = s.get j) := by
   unfold Spec.update
-  simp only [h]
+  simp only [h, hfit, Bool.true_eq_false, if_false]
   have he : (s.erase id).get id = none := by simp [Spec.erase]
-  obtain ⟨h1, h2, h3⟩ := spec_insert_new (s.erase id) id vec (mergeMd md it.md) it.level he
+  obtain ⟨h1, h2, h3⟩ := spec_insert_new (s.erase id) id vec (mergeMd md it.md) it.level he hfit
   refine ⟨h1, h2, ?_⟩
   intro j hj
   rw [h3 j hj]; simp [Spec.erase, hj]
@@ -143,6 +154,90 @@ theorem mergeMd_lookup (new old : Meta) (k : String) :
       have := List.find?_eq_none.mp hn nk hnk
       rw [hk']; simpa using this
     simp [this]
+
+/-! ### every stored item's metadata fits the snapshot format -/
+
+/-- every stored item's metadata can be written without truncating a length field -/
+def AllFit (s : Spec) : Prop := ∀ i it, s.get i = some it → mdFits it.md = true
+
+theorem allFit_insert (s : Spec) (h : AllFit s) (id : ItemId) (vec : VecRef) (md : Meta) (level : Nat) :
+    AllFit (s.insert id vec md level).1 := by
+  unfold Spec.insert
+  cases hfit : mdFits md with
+  | false => simpa using h
+  | true =>
+    simp only [Bool.true_eq_false, if_false]
+    cases hg : s.get id with
+    | some _ => exact h
+    | none =>
+      intro i it hi
+      simp only [Spec.set] at hi
+      by_cases hii : i = id
+      · simp only [hii, if_true, Option.some.injEq] at hi
+        rw [← hi]; exact hfit
+      · simp only [hii, if_false] at hi
+        exact h i it hi
+
+theorem allFit_erase (s : Spec) (h : AllFit s) (id : ItemId) : AllFit (s.erase id) := by
+  intro i it hi
+  simp only [Spec.erase] at hi
+  by_cases hii : i = id
+  · simp [hii] at hi
+  · simp only [hii, if_false] at hi; exact h i it hi
+
+theorem allFit_delete (s : Spec) (h : AllFit s) (id : ItemId) : AllFit (s.delete id).1 := by
+  unfold Spec.delete
+  cases hg : s.get id with
+  | none => exact h
+  | some _ => exact allFit_erase s h id
+
+theorem allFit_update (s : Spec) (h : AllFit s) (id : ItemId) (vec : VecRef) (md : Meta) :
+    AllFit (s.update id vec md).1 := by
+  unfold Spec.update
+  cases hg : s.get id with
+  | none => exact h
+  | some old =>
+    simp only
+    cases hfit : mdFits (mergeMd md old.md) with
+    | false => simpa using h
+    | true =>
+      simp only [Bool.true_eq_false, if_false]
+      exact allFit_insert _ (allFit_erase s h id) _ _ _ _
+
+theorem allFit_batchFold (g : Spec → BatchItem → Spec × Outcome)
+    (hg : ∀ s it, AllFit s → AllFit (g s it).1) (s : Spec) (h : AllFit s) (items : List BatchItem) :
+    AllFit (Spec.batchFold g s items).1 := by
+  unfold Spec.batchFold
+  generalize ([] : List (ItemId × Outcome)) = errs
+  induction items generalizing s errs with
+  | nil => exact h
+  | cons it rest ih =>
+    simp only [List.foldl_cons]
+    have h1 := hg s it h
+    generalize g s it = r at h1
+    obtain ⟨s', o⟩ := r
+    cases o <;> exact ih s' h1 _
+
+theorem allFit_step (s : Spec) (h : AllFit s) (c : Change) : AllFit (s.step c).1 := by
+  cases c with
+  | insert id vec md level => exact allFit_insert s h id vec md level
+  | update id vec md => exact allFit_update s h id vec md
+  | delete id => exact allFit_delete s h id
+  | batchInsert items => exact allFit_batchFold _ (fun s it hs => allFit_insert s hs _ _ _ _) s h items
+  | batchUpdate items => exact allFit_batchFold _ (fun s it hs => allFit_update s hs _ _ _) s h items
+  | batchDelete items => exact allFit_batchFold _ (fun s it hs => allFit_delete s hs _) s h items
+
+/-- **every reachable partition state can be snapshotted**: after any log, every stored item's
+metadata fits the format's length fields (with `partition_refines_map`: the real index's items
+are the specification's) -/
+theorem reachable_metadata_fits (log : List Change) : AllFit (Spec.empty.runLog log).1 := by
+  suffices ∀ s, AllFit s → AllFit (s.runLog log).1 from this _ (by intro i it hi; simp [Spec.empty] at hi)
+  induction log with
+  | nil => intro s h; exact h
+  | cons c rest ih => intro s h; exact ih _ (allFit_step s h c)
+
+set_option maxRecDepth 8192 in
+example : mdFits [("k", "v")] = true ∧ mdFits [(String.ofList (List.replicate 256 'a'), "")] = false := by decide
 
 /-! ### Instantiation at the repo's own queue, and non-vacuity -/
 
